@@ -1,6 +1,7 @@
 package cqueue
 
 import (
+	"github.com/aperturerobotics/util/verifhook"
 	"sync/atomic"
 )
 
@@ -26,6 +27,7 @@ func (q *AtomicLIFO[T]) Push(value T) {
 		// Set the next of the new atomicLIFONode to the current top.
 		newNode.next = oldTop
 
+		verifhook.Point(verifhook.LifoPushCAS, q)
 		// Try to set the new atomicLIFONode as the new top.
 		if q.top.CompareAndSwap(oldTop, newNode) {
 			break
@@ -47,6 +49,7 @@ func (q *AtomicLIFO[T]) Pop() T {
 		// Read the next atomicLIFONode after the top.
 		next := oldTop.next
 
+		verifhook.Point(verifhook.LifoPopCAS, q)
 		// Try to set the next atomicLIFONode as the new top.
 		if q.top.CompareAndSwap(oldTop, next) {
 			return oldTop.value
